@@ -60,6 +60,9 @@ fn make_machine(cfg: &Config) -> Box<dyn Machine> {
 
 pub fn run_program(prog: &Program, o: &RunOpts) -> RunResult {
     let mut ctx = RunCtx::new(o.audits, o.log);
+    ctx.io_seed = prog.config.io_seed;
+    ctx.io_faults = prog.config.io_faults;
+    ctx.io_corrupt = prog.config.io_corrupt;
     let mut model = Model::new(prog.config.kind, prog.config.vars);
     let mut steps = 0;
     let mut retry = None;
